@@ -66,6 +66,27 @@ def cases(it, S):
     add("CompoundInterval beyond the parent sequence", f"{LOC}:CompoundInterval.__init__",
         lambda: it.getattr(ci([1, 10], [3, len(GENOME) + 4], S["PLUS"], parent=par), "blocks", None, 0), {"InvalidPositionException"})
     add("shift_position below zero", f"{LOC}:SingleInterval.shift_position", lambda: it.call_func(it.repo.fn(f"{LOC}:SingleInterval.shift_position"), [-9], {}, si(3, 8, S["PLUS"]), 0), {"InvalidPositionException"})
+    # shifting past the end of the sequence the location sits on: every block is checked, also a long block that is not
+    # the last one in start order (nested / overlapping layouts)
+    for lay, shift in (([(0, 9), (2, 4)], 43), ([(0, 9), (2, 4)], 42), ([(1, 5), (8, 12)], 40), ([(0, 30), (3, 5), (7, 9)], 25)):
+        for sn in ("PLUS", "MINUS"):
+            add(f"compound shift_position past the parent sequence {lay}+{shift} {sn}", f"{LOC}:CompoundInterval.shift_position",
+                (lambda lay=lay, shift=shift, sn=sn: it.call_func(it.repo.fn(f"{LOC}:CompoundInterval.shift_position"), [shift], {},
+                                                                  ci([b[0] for b in lay], [b[1] for b in lay], S[sn], parent=par), 0)),
+                {"InvalidPositionException"})
+    add("single shift_position past the parent sequence", f"{LOC}:SingleInterval.shift_position",
+        lambda: it.call_func(it.repo.fn(f"{LOC}:SingleInterval.shift_position"), [len(GENOME)], {}, si(3, 8, S["PLUS"], parent=par), 0),
+        {"InvalidPositionException"})
+    # a refused codon spelling is refused every time (the intern table must not keep the half-built object)
+    for bad_codon in ("A-G", "AT", "XYZ", "ATGA"):
+        def twice(c=bad_codon):
+            try:
+                it.apply(ClassTok("Codon"), [c], {}, None, 0)
+            except Raised:
+                pass
+            return it.apply(ClassTok("Codon"), [c], {}, None, 0)
+        add(f"Codon({bad_codon!r}) constructed a second time", "gene.codon:Codon.__init__", twice, {"ValueError"})
+        add(f"Codon({bad_codon!r})", "gene.codon:Codon.__init__", (lambda c=bad_codon + "": it.apply(ClassTok("Codon"), [c.lower()], {}, None, 0)), {"ValueError"})
     add("compound shift_position below zero", f"{LOC}:CompoundInterval.shift_position", lambda: it.call_func(it.repo.fn(f"{LOC}:CompoundInterval.shift_position"), [-9], {}, ci([3, 12], [8, 15], S["PLUS"]), 0), {"InvalidPositionException"})
     add("extend_absolute negative", f"{LOC}:SingleInterval.extend_absolute", lambda: it.call_func(it.repo.fn(f"{LOC}:SingleInterval.extend_absolute"), [-1, 2], {}, si(3, 8, S["PLUS"]), 0), {"ValueError"})
     add("extend_absolute below zero", f"{LOC}:SingleInterval.extend_absolute", lambda: it.call_func(it.repo.fn(f"{LOC}:SingleInterval.extend_absolute"), [5, 0], {}, si(3, 8, S["PLUS"]), 0), {"InvalidPositionException"})
